@@ -35,7 +35,7 @@ CLAIMS = {
              "constructed item lists: placement (section heads, adjacency, no gaps, declaration order, one allocation of the rounded total size) and "
              "contents (data bytes, zero bss, ref = target address + displacement, expr = interpreter value truncated to the result type) are decided "
              "by the solver for all payload bytes, displacements and expression values of each enumerated run of items.",
-        note="The STRUCTURE of a run (item kinds, sizes, named flags, ref targets) is an enumerated/sampled configuration (35 shapes; all single items, "
+        note="lref VALUES written by the code generator (real gen_setup_lrefs of mir-gen.c) are checked by lref.gen_values; every run ends with the real remove_module under the ledger allocator (each section block freed exactly once).  The STRUCTURE of a run (item kinds, sizes, named flags, ref targets) is an enumerated/sampled configuration (35 shapes; all single items, "
              "sampled runs of 2-5 items from VERIF_SEED) because symbolic sizes put every byte store at a symbolic offset (no verdict); ref displacement "
              "in [0, 2^40] (CBMC pointer encoding); MIR_interp is a stub returning an arbitrary value; lref values are set by the engines, only their "
              "placement is checked; x86-64 type sizes.",
@@ -51,10 +51,12 @@ CLAIMS = {
              "negative values assumed (gcc/x86-64).",
         technique=TECH),
     "C07": dict(
-        level="model_checking", design="DESIGN.md section 3, C07",
-        text="Bounded model checking of the conversion kernel of c2mir only: integer_promotion and arithmetic_conversion for all pairs of basic/enum "
-             "types against C11 6.3.1.1/6.3.1.8 (LP64), and cast_value for every (source, target) basic type pair and every source value against C casts.",
-        note="Everything else in the property (parser, check(), gen(), whole-program behaviour against the reference compiler) is NOT decided by this "
+        level="model_checking", design="DESIGN.md section 3, C07 and section 8.4",
+        text="Bounded model checking of two kernels of c2mir: (1) conversions - integer_promotion and arithmetic_conversion for all pairs of basic/enum "
+             "types against C11 6.3.1.1/6.3.1.8 (LP64), and cast_value for every (source, target) basic type pair and every source value against C casts; "
+             "(2) constant folding - the real check_assign_op on two integer constants for & | ^ << >> + - * / %: result type and value (as every "
+             "consumer reads it) against a reference written from C11 6.5.5-6.5.12, all values, all 144 integer type pairs (* / %: selected pairs).",
+        note="Everything else in the property (parser, the rest of check(), gen(), whole-program behaviour against the reference compiler) is NOT decided by this "
              "check: no harness can go through c2mir_init and the AST/symbol-table heap is beyond symbolic execution.  CBMC models long double as a "
              "128-bit IEEE format; pointer paths of cast_value are not encoded; float->int out of range assumed away.",
         technique=TECH),
@@ -99,7 +101,8 @@ CLAIMS = {
              "freed exactly once, free_func once per dropped element); the code-holder functions (publish, publish_by_addr, change_code, "
              "update_code_arr, _MIR_set_code, code_finish) against a checking MIR_code_alloc_t: every byte written lies in a mapped holder on a page "
              "that is writable at that moment, every write-enable is followed by an exec-enable before the operation returns, published regions are "
-             "16-aligned and disjoint, code_finish unmaps every holder once with its mapped length.",
+             "16-aligned and disjoint, code_finish unmaps every holder once with its mapped length; "
+             "removal.*: the real remove_module / remove_item on loaded data sections (every section block returned exactly once, nothing that is not a block freed).",
         note="The whole-history statement 'after the finish calls every block has been returned' over ~400 allocation sites is NOT claimed (needs "
              "MIR_init; beyond the engine).  Code memory is an integer address range with a shadow array written by the observed memcpy; page size 64; "
              "<= 1 (quick) / 2-3 (thorough) code operations with lengths 0..48.",
@@ -110,7 +113,7 @@ CLAIMS = {
              "return-by-address / block-type selection (cx86_64-ABI-code.c) on hand-built type graphs against an oracle written from the System V "
              "psABI and gcc's bit-field rule (ref/sysv_ref.h; itself cross-checked natively against gcc on 16000 generated declarations, and in "
              "setup_cmd on 400): sizeof, _Alignof, every member's byte and bit position, per-eightbyte class, register/memory decision.",
-        note="Declaration SHAPE (struct/union, member categories, array or not) is concrete per obligation; which type of a size class, bit-field "
+        note="Second-level anonymous aggregates (anonymous struct inside a nested/anonymous aggregate) are covered by the .deep-anon obligations (layout only, no bit-fields).  Declaration SHAPE (struct/union, member categories, array or not) is concrete per obligation; which type of a size class, bit-field "
              "widths 0..bits(type), named/unnamed, array lengths 1..3, registers already used are symbolic.  <= 3 (quick) / 4 (thorough) members, "
              "nesting <= 2, bounded sizeof.  Under CBMC the c2mir TU is compiled with unions as structs (exact for the encoded functions).  "
              "KNOWN FINDING (listed in known-findings.txt, 2 obligations): unnamed bit-fields raise alignment / take a whole unit.  The copying "
@@ -123,7 +126,7 @@ CLAIMS = {
              "string tag) for ALL 64-bit values / bit patterns with exact byte consumption; write_op against read_operand for all 10 operand kinds "
              "including fully symbolic memory operands; the real write_item into the real MIR_read_with_func for data items of every element type and "
              "for lref items.",
-        note="NOT decided: determinism of two whole-module writes, whole-module identity, string-table construction over many strings, the reader's "
+        note="name.temp_item: after read_name has read any name (reserved .lc<n> included) _MIR_get_temp_item_name yields a different name (strtoul/snprintf modelled for <= 5 digits).  NOT decided: determinism of two whole-module writes, whole-module identity, string-table construction over many strings, the reader's "
              "func/proto/import/export/forward/bss/ref/expr item branches.  State constructed directly (io_ctx, string tables, one function with two "
              "registers); 64-byte stream; data elements: integer/p concrete value sets, f/d/ld symbolic.",
         technique=TECH),
@@ -183,8 +186,9 @@ CLAIMS = {
              "symbolic shape (labels, branches, switch, laddr, lref items), with the generator modelled as an ARBITRARY sequence of edits of the working "
              "list and temp-register requests between duplicate and restore: afterwards the insn list is the original nodes in order with identical "
              "contents, lref labels are the originals, vars/registers are restored, and a second cycle behaves identically.",
-        note="NOT proved: that no generator pass writes through a pointer into original_insns (whole-generator frame condition); the already-generated "
-             "path of generate_func_code (mir-gen.c) is not encoded.  <= 3 (quick) / 5 (thorough) insns, <= 2/3 generator edits and temps per cycle, "
+        note="NOT proved: that no generator pass writes through a pointer into original_insns (whole-generator frame condition).  The already-generated "
+             "path of generate_func_code (mir-gen.c) is checked by regen.already-generated (same address returned, thunk redirected to the recorded call address, MIR untouched); "
+             "the generating path is not encoded.  <= 3 (quick) / 5 (thorough) insns, <= 2/3 generator edits and temps per cycle, "
              "2 cycles, <= 2 lref items; one obligation family with a global hard-register variable.  State constructed directly; HTAB model.",
         technique=TECH),
     "C02": dict(
@@ -223,7 +227,7 @@ CLAIMS = {
              "link every import of a module linked in that step is bound to the definition loaded last before the step (abstract map oracle), earlier "
              "bindings stay, undefined imports and second exported functions end in the documented error; add_item merging rules for all kind sequences "
              "of length 3.",
-        note="Module SHAPES are enumerated (multisets / orthogonal array of 5 shapes per name), histories exhaustive within the step bound via cbmc "
+        note="Module shapes include an exported data SECTION of two items (name = section start).  Module SHAPES are enumerated (multisets / orthogonal array of 5 shapes per name), histories exhaustive within the step bound via cbmc "
              "--paths; thunk creation and set_interface are stubs (which body runs is C01/C03); HTAB abstract-map model (C19), constant hash; "
              "MIR_change_module_ctx and ref/lref/expr data outside.",
         technique=TECH + "; exhaustive path enumeration of load/link histories"),
